@@ -308,6 +308,12 @@ TIntro ==
   /\ Chk("C16", "HeadersFromPageOffsets",
          (Ev.panic = "" /\ Ev.metaerr = "") =>
            \A k \in 1..Len(Ev.atpage) : Ev.atpage[k].err = "" /\ Ev.atpage[k].hdrs = Ev.atpage[k].want)
+  \* the same answers from one reader used for several calls in a row, starting at an arbitrary position
+  /\ Chk("C16", "AnswersIndependentOfReaderPositionAndEarlierCalls",
+         (Ev.panic = "" /\ Ev.metaerr = "" /\ Ev.hdrerr = "" /\ "seq" \in DOMAIN Ev) =>
+           /\ Ev.seq.err = ""
+           /\ Ev.seq.metaafter = Ev.imeta /\ Ev.seq.meta2 = Ev.imeta
+           /\ Ev.seq.hdrs1 = Ev.ipages /\ Ev.seq.hdrs2 = Ev.ipages /\ Ev.seq.hdrs3 = Ev.ipages /\ Ev.seq.hdrs1again = Ev.ipages)
   \* the independent walk itself agrees with what the writer was observed to emit
   /\ Chk("HARNESS", "WalkMatchesSink", Len(Ev.ipages) = Cardinality(HdrIdxOf(snk)))
   /\ UNCHANGED <<caseId, schema, cols, maxPage, codecN, recs, batches, snk, wc, faultK, rowsTab, clean>>
